@@ -63,7 +63,7 @@ impl Check for C12Subst {
                 };
                 let vk = *g.tape.pick(LEAF_KINDS);
                 // (among the names: some that a convenience feature might bind by itself inside function arguments)
-                let vname = g.tape.pick_s(&["v", "w", "foo", "v1", "index", "value", "key", "item", "i", "acc"]).to_string();
+                let vname = g.tape.pick_s(&["v", "w", "foo", "v1", "index", "value", "key", "item", "i", "acc", "v.w", "index.a", "foo.n"]).to_string();
                 let vlit = g.lit(vk, 2);
                 let mk = *g.tape.pick(&[Num, Str, Bool, Any, ArrNum]);
                 let mname = g.tape.pick_s(&["m", "w", "add-1", "v", "index", "value"]).to_string();
@@ -139,6 +139,15 @@ impl Check for C12Subst {
         };
         let f_set_def = Expr::call("set", vec![vname_lit.clone(), Expr::Lit(vl.clone()), Expr::call("define", vec![mname_lit.clone(), mb.clone(), inner.clone()])]);
         let f_def_set = Expr::call("define", vec![mname_lit, mb.clone(), Expr::call("set", vec![vname_lit, Expr::Lit(vl.clone()), inner])]);
+        // a dotted name (v.w) is a name like any other: with the prefix (v) bound as well - to an
+        // object that has the suffix as a member - :v.w is still the variable v.w. The decoy binding
+        // goes around every form, the substituted one included.
+        let decoy: Option<(String, String)> = vn.split_once('.').map(|(p, q)| (p.to_string(), format!("{{\"{}\":\"decoy\"}}", q)));
+        let wrap = |x: Expr| match &decoy {
+            Some((p, lit)) => Expr::call("set", vec![Expr::str_lit(p), Expr::Lit(lit.clone()), x]),
+            None => x,
+        };
+        let (f_set_def, f_def_set, s) = (wrap(f_set_def), wrap(f_def_set), wrap(s));
         let sp = Spell::CANON;
         let mut base: Vec<String> = Vec::new();
         if let Some(e) = &c.split {
@@ -152,6 +161,11 @@ impl Check for C12Subst {
         a1.push(select_arg(&f_def_set, "b", &sp));
         a1.push(select_arg(&s, "c", &sp));
         let mut a2 = vec![format!("--set={}={}", vn, vl), format!("--set=@{}={}", mn, print(mb, &sp))];
+        if let Some((p, lit)) = &decoy {
+            // before or after the binding it must not disturb
+            let at = if vl.len() % 2 == 0 { 0 } else { a2.len() };
+            a2.insert(at, format!("--set={}={}", p, lit));
+        }
         if let Some((n2, b2)) = &c.mac2 {
             a2.push(format!("--set=@{}={}", n2, print(b2, &sp)));
         }
@@ -207,6 +221,7 @@ impl Check for C12Subst {
                 .class_if(c.split.is_some(), "after_split")
                 .class_if(c.before > 0, "not_first_select")
                 .class_if(shadow, "shadowing")
+                .class_if(decoy.is_some(), "dotted_name_next_to_its_prefix")
                 .class_if(c.mac2.as_ref().map(|m| mentions(&m.1, None, Some(mn)) && mentions(&c.e, None, Some("n2"))).unwrap_or(false), "macro_inside_macro")
                 .class_if(some, "non_nothing_result")
                 .obs(json!({"e": canon(&c.e), "substituted": canon(&s), "var": c.var, "macro": [mn, canon(mb)]})),
